@@ -1,0 +1,34 @@
+//go:build verif
+
+// Add-only export shims for the C01 (H)-validation / end-to-end harness (/verif/harness/c01/c01h_test.go).
+// Nothing here changes behaviour; the file is only compiled with `-tags verif`.
+
+package xds
+
+import (
+	"istio.io/istio/pilot/pkg/model"
+)
+
+// VerifTapPushChannel redirects every later ConfigUpdate of s into the returned channel instead of the
+// debounce loop (which keeps listening on the old, now silent, channel).  The harness merges the captured
+// requests itself (PushRequest.Merge, exactly what debounce does) and calls s.Push, so that the batching of a
+// history into pushes is under the harness's control.  Call it only while no ConfigUpdate is in flight.
+func VerifTapPushChannel(s *DiscoveryServer, buffer int) chan *model.PushRequest {
+	ch := make(chan *model.PushRequest, buffer)
+	s.pushChannel = ch
+	return ch
+}
+
+// VerifPushQueueIdle reports whether no connection is pending in, or being processed from, the push queue
+// (every push handed to StartPush has been fully written to its stream).
+func VerifPushQueueIdle(s *DiscoveryServer) bool {
+	q := s.pushQueue
+	q.cond.L.Lock()
+	defer q.cond.L.Unlock()
+	return len(q.pending) == 0 && len(q.processing) == 0 && len(q.queue) == 0
+}
+
+// VerifComputeProxyState runs the unexported computeProxyState (what pushConnection does before deciding).
+func VerifComputeProxyState(s *DiscoveryServer, proxy *model.Proxy, req *model.PushRequest) {
+	s.computeProxyState(proxy, req)
+}
